@@ -5,10 +5,10 @@ ROOT = os.path.dirname(os.path.dirname(os.path.abspath(__file__)))
 sys.path.insert(0, ROOT)
 
 CHECKS = {
- "C01": dict(cat="exploration", tech="property-based differential testing (Hypothesis) against a reference extractor over generated payload layouts, buffer sizes and key modes",
+ "C01": dict(cat="exploration", tech="property-based differential testing (Hypothesis) against a reference extractor over generated payload layouts, buffer sizes and key modes + deterministic enumeration of every header alignment around read boundaries",
    text="Generated payloads (raw / PE / XorEncoded, any key, header straddling every read-boundary alignment, decoys) are extracted by the library and by an independent reference on the known plaintext; block, settings, key and xorencoded flag must agree, or ValueError when no tried key matches. Sampling, not proof.",
    note="Trusts the reference TLV/XorEncoded/PE builders in harness/ref (anchored to the repository's sample beacons). Raw containers avoid accidental XorEncoded markers by construction."),
- "C02": dict(cat="exploration", tech="property-based differential testing (Hypothesis) against an independent TLV decoder + view-agreement invariants; atheris differential fuzz target in the thorough tier",
+ "C02": dict(cat="exploration", tech="property-based differential testing (Hypothesis) against an independent TLV decoder + view-agreement invariants; coverage-guided atheris differential campaigns in the thorough tier",
    text="Arbitrary TLV sequences (unknown/aliased/duplicate indices, zero and maximal lengths, trailing bytes, UA edge) are decoded by the library and by a 25-line reference decoder; all four views and settings_map variants are compared for order and values.",
    note="Trusts harness/ref/tlv.py and the frozen name table in harness/ref/naming.py."),
  "C03": dict(cat="exploration", tech="grammar-based program generation + independent encoders (round trip through the library decoder); exhaustive enumeration of the 2^23 BeaconGate vectors in the thorough tier",
@@ -23,10 +23,10 @@ CHECKS = {
  "C06": dict(cat="exploration", tech="property-based round-trip testing over full-width field values and info lengths up to the PKCS#1 limit, plus negative blobs",
    text="decrypt(encrypt(m)) == m for boundary and random field values at RSA-1024/2048; undecryptable / wrong-magic blobs must raise ValueError; key derivation equals the SHA-256 split.",
    note="Fixed RSA key fixtures; pycryptodome is trusted for RSA itself."),
- "C07": dict(cat="exploration", tech="model-based stateful testing (Hypothesis RuleBasedStateMachine): library beacon client vs reference team-server peer over a loopback socket, decoded by fresh C2Http instances per key variant",
+ "C07": dict(cat="exploration", tech="model-based stateful testing (Hypothesis RuleBasedStateMachine): library beacon client and reference beacon vs reference team-server peer over a loopback socket, decoded by fresh and by persistent C2Http instances per key variant",
    text="Generated configurations and histories of check-ins, tasks and callbacks; after every step fresh decoders for each key variant must yield exactly the model's packet list; unrelated requests must raise ValueError.",
    note="Peer and configuration encoder are reference code; uses 127.0.0.1 sockets and httpx from the repo's environment."),
- "C08": dict(cat="fault_enumeration", tech="structured fault injection (truncation/corruption/crafted fields on reference-built payloads) + random bytes via Hypothesis in collect mode + coverage-guided atheris fuzzing; CPU-time watchdog for hangs",
+ "C08": dict(cat="fault_enumeration", tech="structured fault injection (truncation/corruption/crafted fields on reference-built payloads and sample windows), systematic truncation and field-corruption sweeps, random bytes via Hypothesis, all in collect mode; coverage-guided atheris campaigns in the thorough tier; CPU-time watchdog for hangs",
    text="Every entry point must return or raise ValueError; any other exception is bucketed by (type, innermost library frame); a CPU-time watchdog turns non-termination into a finding.",
    note="Termination is semi-decidable: watchdog of 20 s CPU for inputs whose analytic cost bound is < 2 s."),
  "C09": dict(cat="exploration", tech="model-based stateful testing (RuleBasedStateMachine) of XorEncodedFile against io.BytesIO over the plaintext; generated stages for detection",
@@ -50,7 +50,7 @@ CHECKS = {
  "C15": dict(cat="exploration", tech="exhaustive enumeration over small alphabets (haystack x needle x buffer size x start x limit) against a naive bytes.find oracle + property-based planted needles at buffer boundaries",
    text="iter_find_needle must return exactly the naive occurrence list; with a limit, soundness and completeness-before-limit; ArtifactKit scanner vs a reference scan.",
    note="Buffer size varied by swapping utils.io for a proxy exposing DEFAULT_BUFFER_SIZE."),
- "C16": dict(cat="exploration", tech="property-based generation of HTTP messages from parts via an independent wire serialiser; parsed parts must equal generated parts; atheris target in thorough",
+ "C16": dict(cat="exploration", tech="property-based generation of HTTP messages from parts via an independent wire serialiser; parsed parts must equal generated parts (also on a second parse after the first result was modified); atheris campaigns (parts + raw wire bytes) in the thorough tier",
    text="Generated methods, paths, parameter maps, header maps and binary bodies are serialised by a reference serialiser and must parse back to exactly the parts; malformed start lines must raise ValueError.",
    note="Domain as stated in the property (ASCII paths, non-empty parameter values, 'Key: value' headers)."),
  "C17": dict(cat="exploration", tech="property-based generation with an independent Guardrails protector (anchored to the sample) + fault injection on key/checksum/config bytes + universal checksum invariant",
